@@ -1,6 +1,126 @@
 import Ark.Model.Limbs
+import Ark.Model.Mont
 import Ark.Model.Proto
 /-  Driver dispatch for C15: `<op> <N> args…` → "model|spec"  -/
+
+/-! ### model additions for the coverage-gap ops of `ff/src/biginteger/mod.rs`
+    (kept here, not in `Ark/Model/Limbs.lean`, so that the modules depending on `Limbs` are not
+    rebuilt; same conventions: a `BigInt<N>` is its little-endian limb list) -/
+namespace Ark
+
+/-- `BitXorAssign::bitxor_assign`: `(0..N).for_each(|i| self.0[i] ^= rhs.borrow().0[i])` -/
+def limbsXor (a b : List Nat) : List Nat := List.zipWith (fun x y => x ^^^ y) a b
+/-- `BitAndAssign::bitand_assign` -/
+def limbsAnd (a b : List Nat) : List Nat := List.zipWith (fun x y => x &&& y) a b
+/-- `BitOrAssign::bitor_assign` -/
+def limbsOr (a b : List Nat) : List Nat := List.zipWith (fun x y => x ||| y) a b
+/-- `Not::not`: `result.0[i] = !self.0[i]` -/
+def limbsNot (a : List Nat) : List Nat := a.map (fun l => B - 1 - l)
+
+/-- `const_is_even`: `self.0[0] % 2 == 0` -/
+def constIsEven (a : List Nat) : Bool := a.headD 0 % 2 == 0
+/-- `const_is_odd`: `self.0[0] % 2 == 1` -/
+def constIsOdd (a : List Nat) : Bool := a.headD 0 % 2 == 1
+/-- `mod_4`: `(((self.0[0] << 62) >> 62) % 4) as u8` -/
+def mod4 (a : List Nat) : Nat := (((a.headD 0 * 2 ^ 62) % B) / 2 ^ 62) % 4
+/-- `const_shr`: the loop of `div2` (from the top limb down) on a copy -/
+def constShr (a : List Nat) : List Nat := (div2Rev a.reverse 0).reverse
+/-- `self.0[0] -= 1` (only executed on odd values: no underflow) -/
+def decr0 : List Nat → List Nat
+  | [] => []
+  | l :: ls => (l - 1) :: ls
+/-- `divide_by_2_round_down` -/
+def divideBy2RoundDown (a : List Nat) : List Nat :=
+  constShr (if constIsOdd a then decr0 a else a)
+/-- `const_num_bits`: `((N - 1) * 64) as u32 + (64 - self.0[N - 1].leading_zeros())` — only the top limb is inspected -/
+def constNumBits (a : List Nat) : Nat := (a.length - 1) * 64 + bitLen (a.getLastD 0)
+
+/-- result of a computation that may panic or fail to terminate -/
+inductive Run (α : Type) where
+  | ok : α → Run α
+  | panic : Run α
+  | hang : Run α
+
+/-- `while self.const_is_even() { self = self.const_shr(); two_adicity += 1 }`; `none` = fuel exhausted.
+    A non-zero value leaves the loop after at most `64·N − 1` rounds, so with fuel `64·N + 1`
+    exhaustion happens exactly for the value 0, on which the Rust loop never terminates. -/
+def twoAdicLoop : Nat → List Nat → Nat → Option (List Nat × Nat)
+  | 0, _, _ => none
+  | fuel + 1, a, k => if constIsEven a then twoAdicLoop fuel (constShr a) (k + 1) else some (a, k)
+
+/-- `two_adic_valuation`: `assert!(self.const_is_odd())`, then the loop on `self − 1` -/
+def twoAdicValuation (a : List Nat) : Run Nat :=
+  if !constIsOdd a then .panic
+  else match twoAdicLoop (64 * a.length + 1) (decr0 a) 0 with
+    | some r => .ok r.2
+    | none => .hang
+
+/-- `two_adic_coefficient` (the final `assert!(self.const_is_odd())` holds whenever the loop ends) -/
+def twoAdicCoefficient (a : List Nat) : Run (List Nat) :=
+  if !constIsOdd a then .panic
+  else match twoAdicLoop (64 * a.length + 1) (decr0 a) 0 with
+    | some r => if constIsOdd r.1 then .ok r.1 else .panic
+    | none => .hang
+
+/-- `montgomery_r` / `montgomery_r2` with `self` = the divisor: `assert!(!divisor.const_is_zero())`,
+    then `const_modulo!` (`Mont.constModuloLoop`) -/
+def bigMontgomeryR (a : List Nat) : Outcome (List Nat) :=
+  if isZero a then .panic else .ok (toLimbs a.length (Mont.montgomeryR a.length (value a)))
+def bigMontgomeryR2 (a : List Nat) : Outcome (List Nat) :=
+  if isZero a then .panic else .ok (toLimbs a.length (Mont.montgomeryR2 a.length (value a)))
+
+/-- `CanonicalSerialize for BigInt<N>` = `[u64; N]`: every limb as 8 little-endian bytes -/
+def bigSerialize (a : List Nat) : List Nat := a.flatMap limbBytesLE
+/-- `serialized_size`: `Σ size_of::<u64>()` -/
+def bigSerializedSize (a : List Nat) : Nat := (a.map (fun _ => 8)).foldl (· + ·) 0
+def bytesLE : List Nat → Nat
+  | [] => 0
+  | b :: bs => b + 256 * bytesLE bs
+/-- `CanonicalDeserialize for BigInt<N>`: `N` times `read_exact` of 8 bytes; `none` = `Err` (short input);
+    bytes after the first `8·N` are left in the reader -/
+def bigDeserialize : Nat → List Nat → Option (List Nat)
+  | 0, _ => some []
+  | n + 1, bytes =>
+    if bytes.length < 8 then none
+    else match bigDeserialize n (bytes.drop 8) with
+      | some r => some (bytesLE (bytes.take 8) :: r)
+      | none => none
+
+/-- `From<u8/u16/u32/u64> for BigInt<N>`: `repr.0[0] = val.into()` (index panic for `N = 0`) -/
+def bigFromUint (n x : Nat) : Outcome (List Nat) :=
+  if n = 0 then .panic else .ok (x :: List.replicate (n - 1) 0)
+
+/-- number of bytes of `BigUint::to_bytes_le()` (`[0]` for zero) -/
+def biguintByteLen (x : Nat) : Nat := if x = 0 then 1 else x.log2 / 8 + 1
+/-- `TryFrom<BigUint> for BigInt<N>`: `Err` iff `to_bytes_le().len() > 8·N`, else the byte chunks become limbs -/
+def bigTryFromBigUint (n x : Nat) : Option (List Nat) :=
+  let bytes := (List.range (biguintByteLen x)).map (fun i => (x / 256 ^ i) % 256)
+  if bytes.length > 8 * n then none
+  else
+    let ls := (chunks 8 bytes bytes.length).map bytesLE
+    some (ls ++ List.replicate (n - ls.length) 0)
+
+/-- `BigUint::from_str` of num-bigint 0.4 on the bytes of the string (third-party code, modelled
+    only as far as the harness corpus goes): one optional leading `+` (not followed by `+`), then a
+    non-empty string that does not start with `_`; underscores are skipped, every other byte must be
+    an ASCII digit -/
+def parseBigUintStr (s : List Nat) : Option Nat :=
+  let s := match s with
+    | 43 :: t => if t.head? == some 43 then s else t
+    | _ => s
+  if s.isEmpty || s.head? == some 95 then none
+  else s.foldl (fun acc c => match acc with
+    | none => none
+    | some v => if c == 95 then some v else if 48 ≤ c ∧ c ≤ 57 then some (v * 10 + (c - 48)) else none) (some 0)
+
+/-- `FromStr for BigInt<N>`: `BigUint::from_str(s)` then `try_from` -/
+def bigFromStr (n : Nat) (s : List Nat) : Option (List Nat) :=
+  match parseBigUintStr s with
+  | some v => bigTryFromBigUint n v
+  | none => none
+
+end Ark
+
 namespace Ark.DrvC15
 open Ark Ark.Proto
 
@@ -111,6 +231,118 @@ def run (op : String) (args : List String) (impl : String) : Option (String × S
     match findRelaxedNaf (toLimbs n a) with
     | .ok ds => some (hexIntList ds, judgeDigitsStr (a % B ^ n) 2 false impl)
     | .panic => some ("panic", judgeDigitsStr (a % B ^ n) 2 false impl)
+  -- bitwise operators (every receiver variant prints the same op line)
+  | "bxor", [n, a, b] =>
+    let n ← parseHex? n; let a ← parseHex? a; let b ← parseHex? b
+    some (hex (value (limbsXor (toLimbs n a) (toLimbs n b))), vs impl (hex (a ^^^ b)))
+  | "band", [n, a, b] =>
+    let n ← parseHex? n; let a ← parseHex? a; let b ← parseHex? b
+    some (hex (value (limbsAnd (toLimbs n a) (toLimbs n b))), vs impl (hex (a &&& b)))
+  | "bor", [n, a, b] =>
+    let n ← parseHex? n; let a ← parseHex? a; let b ← parseHex? b
+    some (hex (value (limbsOr (toLimbs n a) (toLimbs n b))), vs impl (hex (a ||| b)))
+  | "not", [n, a] =>
+    let n ← parseHex? n; let a ← parseHex? a
+    some (hex (value (limbsNot (toLimbs n a))), vs impl (hex (B ^ n - 1 - a)))
+  -- run-time calls of the `const fn`s
+  | "iseven", [n, a] =>
+    let n ← parseHex? n; let a ← parseHex? a
+    let l := toLimbs n a
+    some (s!"{boolStr (constIsEven l)} {boolStr (constIsOdd l)}", vs impl (s!"{boolStr (a % 2 == 0)} {boolStr (a % 2 == 1)}"))
+  | "mod4", [n, a] =>
+    let n ← parseHex? n; let a ← parseHex? a
+    some (hex (mod4 (toLimbs n a)), vs impl (hex (a % 4)))
+  | "constshr", [n, a] =>
+    let n ← parseHex? n; let a ← parseHex? a
+    some (hex (value (constShr (toLimbs n a))), vs impl (hex (a / 2)))
+  | "d2rd", [n, a] =>
+    let n ← parseHex? n; let a ← parseHex? a
+    some (hex (value (divideBy2RoundDown (toLimbs n a))), vs impl (hex ((a - a % 2) / 2)))
+  | "cnumbits", [n, a] =>
+    let n ← parseHex? n; let a ← parseHex? a
+    let spec := hex (if a = 0 then 0 else a.log2 + 1)
+    -- `const_num_bits` reads the top limb only (it is applied to moduli, whose top limb is non-zero):
+    -- values with a zero top limb are outside its domain
+    let v := if impl == spec then "ok" else if n > 1 ∧ a < B ^ (n - 1) then "note:top-limb-zero want=" ++ spec else "bad:want=" ++ spec
+    some (hex (constNumBits (toLimbs n a)), v)
+  | "tav", [n, a] =>
+    let n ← parseHex? n; let a ← parseHex? a
+    let m := match twoAdicValuation (toLimbs n a) with
+      | .ok k => hex k | .panic => "panic" | .hang => "hang"
+    let rec val2 (fuel x : Nat) : Nat := match fuel with
+      | 0 => 0
+      | f + 1 => if x % 2 == 0 then 1 + val2 f (x / 2) else 0
+    let v := if a % 2 == 0 then vs impl "panic"           -- documented precondition `assert!(odd)`
+      else if a == 1 then (if impl == "hang" then "note:two_adic_valuation(1) does not terminate" else "bad:" ++ impl)
+      else vs impl (hex (val2 (64 * n + 1) (a - 1)))
+    some (m, v)
+  | "tac", [n, a] =>
+    let n ← parseHex? n; let a ← parseHex? a
+    let m := match twoAdicCoefficient (toLimbs n a) with
+      | .ok r => hex (value r) | .panic => "panic" | .hang => "hang"
+    let rec odd (fuel x : Nat) : Nat := match fuel with
+      | 0 => x
+      | f + 1 => if x % 2 == 0 then odd f (x / 2) else x
+    let v := if a % 2 == 0 then vs impl "panic"
+      else if a == 1 then (if impl == "hang" then "note:two_adic_coefficient(1) does not terminate" else "bad:" ++ impl)
+      else vs impl (hex (odd (64 * n + 1) (a - 1)))
+    some (m, v)
+  | "montr", [n, p] =>
+    let n ← parseHex? n; let p ← parseHex? p
+    let m := match bigMontgomeryR (toLimbs n p) with | .ok r => hex (value r) | .panic => "panic"
+    some (m, vs impl (if p = 0 then "panic" else hex (B ^ n % p)))
+  | "montr2", [n, p] =>
+    let n ← parseHex? n; let p ← parseHex? p
+    let m := match bigMontgomeryR2 (toLimbs n p) with | .ok r => hex (value r) | .panic => "panic"
+    some (m, vs impl (if p = 0 then "panic" else hex (B ^ (2 * n) % p)))
+  -- serialization (`mode` = c | u: both write the same bytes)
+  | "ser", [n, _mode, a] =>
+    let n ← parseHex? n; let a ← parseHex? a
+    let l := toLimbs n a
+    some (s!"{hex (bigSerializedSize l)} {hexList (bigSerialize l)}",
+          vs impl (s!"{hex (8 * n)} {hexList ((List.range (8 * n)).map (fun i => (a / 256 ^ i) % 256))}"))
+  | "deser", [n, _mode, bytes] =>
+    let n ← parseHex? n; let bytes ← parseList? bytes
+    let m := match bigDeserialize n bytes with | some r => hex (value r) | none => "err"
+    let spec := if bytes.length < 8 * n then "err"
+      else hex (((bytes.take (8 * n)).zipIdx.map (fun (b, i) => b * 256 ^ i)).foldl (· + ·) 0)
+    some (m, vs impl spec)
+  | "valid", [n, a] =>
+    let _ ← parseHex? n; let _ ← parseHex? a
+    some ("ok", vs impl "ok")
+  -- conversions
+  | "fromuint", [n, w, x] =>
+    let n ← parseHex? n; let w ← parseHex? w; let x ← parseHex? x
+    if x ≥ 2 ^ w then none
+    else
+      let m := match bigFromUint n x with | .ok r => hex (value r) | .panic => "panic"
+      some (m, vs impl (hex x))
+  | "trybiguint", [n, x] =>
+    let n ← parseHex? n; let x ← parseHex? x
+    let m := match bigTryFromBigUint n x with | some r => hex (value r) | none => "err"
+    some (m, vs impl (if x < B ^ n then hex x else "err"))
+  | "tobig", [n, a] =>
+    -- `BigUint::from(x)` and `num_bigint::BigInt::from(x)`, both printed in hex by the harness
+    let n ← parseHex? n; let a ← parseHex? a
+    let v := bytesLE (toBytesLE (toLimbs n a))
+    some (s!"{hex v} {hex v}", vs impl (s!"{hex a} {hex a}"))
+  | "display", [n, a] =>
+    let n ← parseHex? n; let a ← parseHex? a
+    some (toString (value (toLimbs n a)), vs impl (toString a))
+  | "upperhex", [n, a] =>
+    -- `{:016X}` of the `BigUint`
+    let n ← parseHex? n; let a ← parseHex? a
+    let up (x : Nat) : String :=
+      let h := (hex x).toUpper
+      String.ofList (List.replicate (16 - h.length) '0') ++ h
+    some (up (value (toLimbs n a)), vs impl (up a))
+  | "fromstr", [n, s] =>
+    let n ← parseHex? n; let s ← parseList? s
+    let m := match bigFromStr n s with | some r => hex (value r) | none => "err"
+    -- spec (harness corpus: no `+`, no `_`): a non-empty string of ASCII digits denoting a value < 2^(64N)
+    let digits := !s.isEmpty && s.all (fun c => 48 ≤ c && c ≤ 57)
+    let v := s.foldl (fun acc c => acc * 10 + (c - 48)) 0
+    some (m, vs impl (if digits && v < B ^ n then hex v else "err"))
   | _, _ => none
 
 end Ark.DrvC15
